@@ -1,6 +1,7 @@
 import OdakProofs.Lemmas.Kernels
 import OdakProofs.Lemmas.PropagateLemmas
 import OdakProofs.Lemmas.NumpyPipelines
+import OdakProofs.Lemmas.GenKernels
 
 /-! # C01 – free-space propagation conserves optical energy and never creates it
   All statements: every grid size `n × m` (even, odd, non-square), every complex field `u`,
@@ -73,5 +74,63 @@ example : (0 : ℝ) < 1 ∧ ((1 : ℝ) / 2) ^ 2 ≤ 2 * (1 : ℝ) ^ 2 := by norm
 theorem C01_np_tf_conserves_energy {n m : Nat} (u : CGrid ℝ n m) (dx lam k z : ℝ) (hdx : 0 < dx) (hm : 0 < m) :
     CGrid.energy (npTF u dx lam k z) = CGrid.energy u :=
   energy_npTF u dx lam k z (pos_ne m dx hdx hm)
+
+end Odak
+
+/-! ## The same statements for the kernels REGENERATED from the Python source on this run
+  (`OdakModel/Generated/WaveKernels.lean`, tied to the hand model by `OdakProofs/Lemmas/GenKernels.lean`).
+  They stop compiling when the source's kernel formulas change. -/
+namespace Odak
+open Gen
+
+/-- the regenerated torch angular-spectrum kernel has modulus one at every sample (and, under `dx ≥ λ/√2`, every grid
+    frequency is propagating) -/
+theorem C01_gen_as_kernel_unit (n m : Nat) (dx lam z : ℝ) (hdx : 0 < dx) (hs : lam ^ 2 ≤ 2 * dx ^ 2) :
+    asDefined n m dx lam ∧ ∀ i j, Cx.normSq ((asKernelT n m dx lam z).get i j) = 1 := by
+  rw [gen_asKernelT_eq]; exact C01_as_kernel_unit n m dx lam z hdx hs
+
+/-- the regenerated Fresnel transfer functions (torch, and the one built inside NumPy `transfer_function_fresnel`) and the
+    regenerated NumPy angular-spectrum kernel have modulus one at every sample, unconditionally -/
+theorem C01_gen_tf_and_np_as_kernel_unit (n m : Nat) (dx lam k z : ℝ) (i : Fin n) (j : Fin m) :
+    Cx.normSq ((tfKernelT n m dx lam z).get i j) = 1 ∧ Cx.normSq ((tfKernelN n m dx lam k z).get i j) = 1 ∧
+    Cx.normSq ((asKernelN n m dx lam k z).get i j) = 1 := by
+  rw [gen_tfKernelT_eq, gen_tfKernelN_eq, gen_asKernelN_eq]
+  exact ⟨tf_unit n m dx lam _ z i j, tf_unit n m dx lam k z i j, npAs_unit n m dx lam k z i j⟩
+
+/-- the regenerated band-limited kernels (both APIs) have modulus 0 or 1, in particular ≤ 1, at every sample -/
+theorem C01_gen_bl_kernel_modulus_le_one (n m : Nat) (dx lam k z : ℝ) (i : Fin n) (j : Fin m) :
+    Cx.normSq ((blKernelT n m dx lam z).get i j) ≤ 1 ∧ Cx.normSq ((blKernelN n m dx lam k z).get i j) ≤ 1 := by
+  rw [gen_blKernelT_eq, gen_blKernelN_eq]
+  constructor
+  · rcases bl_zero_or_one n m dx lam z i j with h | h <;> rw [h] <;> norm_num
+  · rcases npBl_zero_or_one n m dx lam k z i j with h | h <;> rw [h] <;> norm_num
+
+/-- the propagation pipeline with the REGENERATED kernels conserves energy (angular spectrum and Fresnel transfer function,
+    both APIs; the NumPy Fresnel method through its own shift-first pipeline) -/
+theorem C01_gen_kernels_conserve_energy {n m : Nat} (u : CGrid ℝ n m) (dx lam k z : ℝ) :
+    CGrid.energy (customNoAp u (asKernelT n m dx lam z)) = CGrid.energy u ∧
+    CGrid.energy (customNoAp u (tfKernelT n m dx lam z)) = CGrid.energy u ∧
+    CGrid.energy (customNoAp u (asKernelN n m dx lam k z)) = CGrid.energy u := by
+  rw [gen_asKernelT_eq, gen_tfKernelT_eq, gen_asKernelN_eq]
+  exact ⟨C01_torch_as_conserves_energy u dx lam z, C01_torch_tf_conserves_energy u dx lam z,
+    C01_np_as_conserves_energy u dx lam k z⟩
+
+/-- … and with the regenerated band-limited kernels it never creates energy -/
+theorem C01_gen_bl_never_creates_energy {n m : Nat} (u : CGrid ℝ n m) (dx lam k z : ℝ) :
+    CGrid.energy (customNoAp u (blKernelT n m dx lam z)) ≤ CGrid.energy u ∧
+    CGrid.energy (customNoAp u (blKernelN n m dx lam k z)) ≤ CGrid.energy u := by
+  rw [gen_blKernelT_eq, gen_blKernelN_eq]
+  exact C01_bl_never_creates_energy u dx lam k z
+
+/-- the hand-written pipelines ARE the generic pipeline applied to the regenerated kernels (so every C01 theorem above
+    about `torchAS`, `torchTF`, `torchBL`, `npAS`, `npBL` is a theorem about the kernels the source defines now) -/
+theorem C01_gen_pipelines_use_regenerated_kernels {n m : Nat} (u : CGrid ℝ n m) (dx lam k z : ℝ) :
+    torchAS u dx lam z = customNoAp u (asKernelT n m dx lam z) ∧
+    torchTF u dx lam z = customNoAp u (tfKernelT n m dx lam z) ∧
+    torchBL u dx lam z = customNoAp u (blKernelT n m dx lam z) ∧
+    npAS u dx lam k z = customNoAp u (asKernelN n m dx lam k z) ∧
+    npBL u dx lam k z = customNoAp u (blKernelN n m dx lam k z) := by
+  rw [gen_asKernelT_eq, gen_tfKernelT_eq, gen_blKernelT_eq, gen_asKernelN_eq, gen_blKernelN_eq]
+  exact ⟨rfl, rfl, rfl, rfl, rfl⟩
 
 end Odak
